@@ -305,8 +305,11 @@ class Engine:
         # obligations with it, which would otherwise pass silently
         nloops = len(self.loop_ids)
         gone = sorted(k for k in c.loops if isinstance(k, int) and k >= nloops)
+        # (decided by the caller: if the remaining obligations fail they are reported as before; if they all pass, the function is
+        # treated as having left the verified subset -- see funpack.verify)
+        self.gone_loops = None
         if gone and not getattr(c, 'optional_loops', False):
-            raise Unsupported('the contract states an invariant for loop #%d; the function body has only %d loop(s)' % (gone[0], nloops))
+            self.gone_loops = 'the contract states an invariant for loop #%d; the function body has only %d loop(s)' % (gone[0], nloops)
         st = State(schema=c.schema, aliases=c.aliases)
         # parameters
         args = self.fn.args
